@@ -14,6 +14,7 @@ import random as _random
 import subprocess
 import sys
 import time
+import pickle
 import types
 
 import numpy as np
@@ -414,7 +415,8 @@ class VirtualPool:
             self.vmp.schedule.append(w)
             self.vmp.restore(self.workers[w])
             try:
-                results.append(func(task))
+                # as in a real pool, the task goes to the worker and the result comes back through pickle
+                results.append(pickle.loads(pickle.dumps(func(pickle.loads(pickle.dumps(task))))))
             finally:
                 self.workers[w] = self.vmp.snapshot()
                 self.vmp.restore(self.parent)
